@@ -727,6 +727,11 @@ class ModuleVistor(NodeVisitor):
             return
 
         if obj is not None:
+            try:
+                docstring.encode('utf-8')
+            except UnicodeEncodeError:
+                # Lone surrogates (written with escapes in the source) cannot be written to the HTML files.
+                docstring = docstring.encode('utf-8', 'backslashreplace').decode('utf-8')
             obj.docstring = docstring
             # TODO: It might be better to not perform docstring parsing until
             #       we have the final docstrings for all objects.
